@@ -135,6 +135,51 @@ pub fn c11_def() -> PropDef {
     }
 }
 
+pub const C12_RULE: &str = "seeded scenarios: one ruleset object (1-5 generated rules with cacheable and non-cacheable probes + a symbol-table rule), 3 inputs, 2-6 evaluations (evaluate_value, evaluate(&T), Expr::evaluate) plus retries, scripts pure in (function, argument, evaluation tag, ordinal) so any value crossing between evaluations, any re-invocation and any remembered result changes an outcome; perturbed by 0-3 self-wake/deferred suspensions per call, four executor regimes (wake-driven, spurious polls, busy, clock running ahead), fresh wakers, interleaving at every suspension point, abandonment (cancellation at suspension point 0..7 enumerated over 8 consecutive run indices, virtual deadlines, panicking functions) followed by a retry; every finished evaluation must equal the same evaluation run alone on a fresh ruleset with zero suspensions (run twice). non-trivial = at least one interleave switch or one abandonment; distinct = distinct hashes of (interleaving projected on task switches, abandonment points), counted in a 2^25-bit bitmap";
+
+pub fn c12_def() -> PropDef {
+    PropDef {
+        id: "C12",
+        generate: |vs, idx, _| Record::Sim(crate::c12::generate(vs, idx, "C12")),
+        check: |rec, c| match rec {
+            Record::Sim(s) => crate::c12::check(s, c),
+            _ => Verdict::harness("wrong record kind".into()),
+        },
+        candidates: sim_candidates,
+        runs_quick: 120_000,
+        runs_thorough: 12_000_000,
+        level: "fault_enumeration",
+        rule: C12_RULE,
+        assumptions: &[
+            "'the same outcomes' = the outcomes of the same evaluation run alone, to completion, on a fresh ruleset built from the same scenario, with functions that never suspend",
+            "a hang inside a single poll is outside a cooperative simulator's reach (wall-clock watchdog -> harness error)",
+            "schedules and fault sequences are sampled; <=6+1 tasks, <=3 suspensions per call, <=3000 steps",
+        ],
+        real_components: REAL,
+        stub_components: STUB,
+        expected_hits: &[
+            "fault.fn_error",
+            "fault.fn_suspend_selfwake",
+            "fault.fn_suspend_deferred",
+            "fault.spurious_poll",
+            "fault.fresh_waker",
+            "fault.cancel_at_point",
+            "fault.deadline_cancel",
+            "fault.fn_panic",
+            "fault.interleave_switch",
+            "fault.retry_after_abandon",
+            "hit.cancel_while_deferred_wake_outstanding",
+            "hit.wake_fired_after_call_dropped",
+            "hit.finished_after_an_earlier_abandonment",
+            "hit.evaluation_died_by_unwinding",
+            "hit.cancelled_at_suspension_point.0",
+            "hit.cancelled_at_suspension_point.1",
+            "hit.cancelled_at_suspension_point.4",
+            "hit.cancelled_at_suspension_point.7",
+        ],
+    }
+}
+
 pub fn all() -> Vec<PropDef> {
-    vec![c05_def(), c09_def(), c11_def()]
+    vec![c05_def(), c09_def(), c11_def(), c12_def()]
 }
